@@ -374,7 +374,35 @@ def rule_f(ctx):
     ctx.floor(R, 1)
 
 
+def rule_g(ctx):
+    R = "C11.g"
+    ctx.rule(R, "the function interface is the class: reduce_axis(image, axis, mode, ...) builds AxisReduction with its own axis, the image's "
+             "space dimension and its own mode -- each bound to the constructor parameter of that role -- and applies it to the image")
+    from ..flow import bind_call, expand
+
+    m = ctx.model
+    f = m.func(DIM, "reduce_axis")
+    init = m.func(DIM, "AxisReduction.__init__")
+    ctx.instance(R)
+    rets = [r.value for r in ast.walk(f.node) if isinstance(r, ast.Return) and r.value is not None]
+    ctx.need(len(rets) == 1, "reduce_axis: single return not found")
+    e = expand(f.node, rets[0])
+    ok_apply = isinstance(e, ast.Call) and len(e.args) == 1 and norm(e.args[0]) == f.params[0] and isinstance(e.func, ast.Call) and norm(e.func.func) == "AxisReduction"
+    ctx.ob(R, f.qname, "returns AxisReduction(...)(image)", ok_apply, norm(e)[:100], f.node)
+    if ok_apply:
+        b = bind_call(e.func, init.node, skip_first=True)
+        ctx.need(b is not None, "reduce_axis: arguments of AxisReduction(...) cannot be bound to its parameters")
+        ip = init.params[1:]
+        want = {ip[0]: "axis", ip[1]: f"{f.params[0]}.space_dim", ip[2]: "mode"}
+        for prm, src in want.items():
+            got = norm(b[prm]) if prm in b else None
+            ctx.ob(R, f.qname, f"constructor parameter `{prm}` receives {src}", got == src,
+                   f"receives {got}" if got is not None else f"is not passed: the constructor's default is used whatever `{src}` the caller asked for", e.func, evidence=True)
+    ctx.floor(R, 1)
+
+
 def run(ctx):
+    rule_g(ctx)
     rule_a(ctx)
     rule_b(ctx)
     rule_c(ctx)
